@@ -454,7 +454,13 @@ func runInjections(run *core.Run, nRandom, nExhaustive int) {
 		base := g.Doc(r.Intn(3) == 0)
 		for k := 0; k < nInjKinds; k++ {
 			n := siteCount(base, k)
-			for site := 0; site < n; site++ {
+			// big documents offer thousands of sites: every site up to 40 per kind, beyond that an even sample of 12
+			stride := 1
+			if n > 40 {
+				stride = n/12 + 1
+				run.Count("kinds_with_sampled_sites", 1)
+			}
+			for site := 0; site < n; site += stride {
 				d := base.Clone()
 				inj := applyInjection(d, k, site, r.Intn(24))
 				if inj == nil {
